@@ -3,6 +3,7 @@
 
 #include "runner.hpp"
 #include "lib.hpp"
+#include <boost/iterator/function_output_iterator.hpp>
 
 using namespace vf;
 
@@ -44,8 +45,21 @@ static void spanner_facts(BG<W> &bg, const GraphSpec &s, std::size_t k, ARun &r)
     }
 }
 
+template <class W, class G, class WM, class Out>
+static W dispatch_approx(const std::string &entry, const G &g, const WM &wm, std::size_t k, Out out) {
+    if (entry == "approx_mcb_sva_signed") return parmcb::approx_mcb_sva_signed(g, wm, k, out);
+    if (entry == "approx_mcb_sva_fvs_trees") return parmcb::approx_mcb_sva_fvs_trees(g, wm, k, out);
+    if (entry == "approx_mcb_sva_iso_trees") return parmcb::approx_mcb_sva_iso_trees(g, wm, k, out);
+    if (entry == "approx_mcb_sva_signed_tbb") return parmcb::approx_mcb_sva_signed_tbb(g, wm, k, out);
+    if (entry == "approx_mcb_sva_fvs_trees_tbb") return parmcb::approx_mcb_sva_fvs_trees_tbb(g, wm, k, out);
+    if (entry == "approx_mcb_sva_iso_trees_tbb") return parmcb::approx_mcb_sva_iso_trees_tbb(g, wm, k, out);
+    throw std::invalid_argument("unknown entry " + entry);
+}
+
+// 'outkind': which model of OutputIterator the caller hands in (list / vector back_inserter, positional iterator into a
+// pre-sized vector, function_output_iterator): the contract is "writes one cycle per *out++", whatever the iterator is.
 template <class W>
-static ARun run_approx_t(const std::string &entry, const GraphSpec &s, std::size_t k) {
+static ARun run_approx_t(const std::string &entry, const GraphSpec &s, std::size_t k, const std::string &outkind = "list") {
     ARun r;
     BG<W> bg(s);
     typedef typename BG<W>::Edge Edge;
@@ -53,13 +67,22 @@ static ARun run_approx_t(const std::string &entry, const GraphSpec &s, std::size
     auto wm = bg.wmap();
     try {
         W ret;
-        if (entry == "approx_mcb_sva_signed") ret = parmcb::approx_mcb_sva_signed(bg.g, wm, k, std::back_inserter(cycles));
-        else if (entry == "approx_mcb_sva_fvs_trees") ret = parmcb::approx_mcb_sva_fvs_trees(bg.g, wm, k, std::back_inserter(cycles));
-        else if (entry == "approx_mcb_sva_iso_trees") ret = parmcb::approx_mcb_sva_iso_trees(bg.g, wm, k, std::back_inserter(cycles));
-        else if (entry == "approx_mcb_sva_signed_tbb") ret = parmcb::approx_mcb_sva_signed_tbb(bg.g, wm, k, std::back_inserter(cycles));
-        else if (entry == "approx_mcb_sva_fvs_trees_tbb") ret = parmcb::approx_mcb_sva_fvs_trees_tbb(bg.g, wm, k, std::back_inserter(cycles));
-        else if (entry == "approx_mcb_sva_iso_trees_tbb") ret = parmcb::approx_mcb_sva_iso_trees_tbb(bg.g, wm, k, std::back_inserter(cycles));
-        else { r.threw = true; r.what = "unknown entry"; return r; }
+        if (outkind == "vector") {
+            std::vector<std::list<Edge>> v;
+            ret = dispatch_approx<W>(entry, bg.g, wm, k, std::back_inserter(v));
+            cycles.assign(v.begin(), v.end());
+        } else if (outkind == "positional") {
+            std::vector<std::list<Edge>> v((std::size_t) std::max(0, cycle_dim(s)) + 4);
+            ret = dispatch_approx<W>(entry, bg.g, wm, k, v.begin());
+            std::size_t last = 0;
+            for (std::size_t i = 0; i < v.size(); i++) if (!v[i].empty()) last = i + 1;
+            cycles.assign(v.begin(), v.begin() + (std::ptrdiff_t) last);
+        } else if (outkind == "function") {
+            auto sink = [&cycles](const std::list<Edge> &c) { cycles.push_back(c); };
+            ret = dispatch_approx<W>(entry, bg.g, wm, k, boost::make_function_output_iterator(sink));
+        } else {
+            ret = dispatch_approx<W>(entry, bg.g, wm, k, std::back_inserter(cycles));
+        }
         r.returned = (double) ret;
     } catch (const std::exception &e) {
         r.threw = true;
@@ -86,8 +109,10 @@ static ARun run_approx_t(const std::string &entry, const GraphSpec &s, std::size
 }
 static ARun run_approx(const Case &c) {
     std::size_t k = (std::size_t) c.k;
-    if (c.wtype == "int") return run_approx_t<int>(c.entry, c.g, k);
-    return run_approx_t<double>(c.entry, c.g, k);
+    std::string ok = c.xval("out");
+    if (ok.empty()) ok = "list";
+    if (c.wtype == "int") return run_approx_t<int>(c.entry, c.g, k, ok);
+    return run_approx_t<double>(c.entry, c.g, k, ok);
 }
 
 static long gen_k(bool allow_zero) {
@@ -111,6 +136,9 @@ static Case gen_approx(bool allow_zero) {
     o.maxM = g_maxM;
     c.g = gen_graph_raw(o, c.wtype == "int" ? WDom::ExactInt : WDom::Exact);
     c.k = gen_k(allow_zero);
+    static const char *outs[] = {"list", "list", "vector", "positional", "positional", "function"};
+    std::string ok = outs[pick(0, 5)];
+    if (ok != "list") c.extra.push_back("out " + ok);
     return c;
 }
 static Case gen_c05() { return gen_approx(false); }
@@ -131,6 +159,7 @@ static Verdict check_c05(const Case &c) {
     S.cls(kclass(c.k));
     S.cls(c.entry);
     S.cls(std::string("wtype-") + c.wtype);
+    S.cls("output-iterator-" + (c.xval("out").empty() ? std::string("list") : c.xval("out")));
     if (r.spanner_has_cycle) S.cls("spanner-has-cycle");
     if (r.dropped >= 1) S.cls("edges-dropped");
     if (cycle_dim(c.g) == 0) S.cls("forest");
